@@ -418,6 +418,7 @@ fn run_chunk_cli(case: &ChunkCli, partition: Option<&Partition>) -> CliRun {
                 default: vec![],
             },
             fail_write_at: None,
+            write_stall: None,
             unsolicited: vec![],
         }],
         ops,
@@ -573,6 +574,72 @@ pub fn check_chunk_cli(case: &ChunkCli) -> CaseResult {
         if !matches!(p, Partition::Whole) {
             saw_hdr_cut = true;
         }
+    }
+    // MBAP: a frame nobody asked for is half received while the channel is idle, then a request is
+    // submitted (the idle read is abandoned for it); the rest of that frame and the reply follow.
+    // The frame boundary must survive: the request gets its genuine reply.
+    if case.framing == Fr::Mbap {
+        let (unit, req, _, _) = &case.requests[0];
+        let valid = req.to_valid().unwrap();
+        let idle_pdu: Vec<u8> = (0..(case.select_seed % 12) as u8).collect();
+        let idle = frame_reply(Fr::Mbap, 0x7777, *unit, &idle_pdu);
+        let cut = 1 + (case.select_seed as usize / 16) % (idle.len() - 1);
+        let (b, r) = genuine_values(case.select_seed);
+        let genuine = genuine_reply(&valid, &b, &r);
+        let mut rest = idle[cut..].to_vec();
+        rest.extend_from_slice(&frame_reply(Fr::Mbap, 0, *unit, &genuine));
+        let run = run_client(&CliCase {
+            cfg: CliConfig {
+                framing: Fr::Mbap,
+                decode: case.decode,
+                max_timeouts: None,
+                queue: 16,
+                retry_ms: 100_000_000,
+            },
+            conns: vec![ConnPlan {
+                peer: PeerPlan {
+                    per_request: vec![vec![PeerAct::Raw {
+                        delay_ms: 1,
+                        bytes: rest,
+                    }]],
+                    default: vec![],
+                },
+                fail_write_at: None,
+                write_stall: None,
+                unsolicited: vec![(5, idle[..cut].to_vec())],
+            }],
+            ops: vec![
+                COp::Advance(10),
+                COp::Submit {
+                    id: 0,
+                    style: Style::Future,
+                    handle: 0,
+                    unit: *unit,
+                    timeout_ms: 1000,
+                    req: req.clone(),
+                },
+                COp::Advance(5_000),
+            ],
+            select_seed: case.select_seed,
+            pre_enable: true,
+        });
+        let got = run.ledger.completions.first().map(|c| c.res.clone());
+        let want = match classify_reply(&valid, &genuine) {
+            ReplyClass::Ok(v) => v,
+            other => return Err(format!("harness: genuine reply classified as {:?}", other)),
+        };
+        match got {
+            Some(Res::Ok(v)) if v == want => {}
+            other => {
+                return Err(format!(
+                    "a {}-byte frame with a foreign transaction id arrives {} bytes while idle and the rest after the request was sent, followed by the genuine reply: request completed with {:?}",
+                    idle.len(),
+                    cut,
+                    other
+                ))
+            }
+        }
+        ok.label("idle_half_frame_then_request");
     }
     ok.label(match case.framing {
         Fr::Mbap => "framing:mbap",
@@ -879,6 +946,7 @@ fn client_one(case: &C06Cli, wire: Vec<u8>) -> CliRun {
                 default: vec![],
             },
             fail_write_at: None,
+            write_stall: None,
             unsolicited: vec![],
         }],
         ops: vec![
